@@ -616,6 +616,7 @@ func TestVerif_C09(t *testing.T) {
 	pending := c09RefreshHistories(c, insts)
 	c09Timeline(c, pending)
 	c09StoreExpiry(c, t)
+	c09NegativeLifetime(c, t)
 
 	run.Extra("instances", len(insts))
 	run.Extra("probes_by_threshold_side_distance", c.cellSum)
@@ -966,6 +967,69 @@ func c09StoreExpiry(c *c09Ctx, t *testing.T) {
 				if resp.Code == 200 || len(w2.Up.FindHit(id)) > 0 {
 					c.run.Violation("c09:served-after-store-expiry", fmt.Sprintf("%s: session served (status %d) after the server-side entry's lifetime has passed on the store's clock", in, resp.Code),
 						map[string]interface{}{"flags": p.Flags, "request": req, "status": resp.Code})
+				}
+			}
+		}
+	}
+}
+
+// c09NegativeLifetime (round 6): a negative --cookie-expire is non-zero, passes validation, and means the lifetime has elapsed the
+// moment a session is issued: no credential the proxy hands out may ever be honoured, whatever the client does with the
+// (already expired) cookie. Presented immediately, one second later and with the session issued in the past / future.
+func c09NegativeLifetime(c *c09Ctx, t *testing.T) {
+	w := c.w
+	for _, store := range []string{"cookie", "redis"} {
+		for _, e := range []string{"-1s", "-1h", "-168h"} {
+			flags := []string{"--session-store-type=" + store, "--cookie-expire=" + e, "--cookie-refresh=0", "--insecure-oidc-skip-nonce=true"}
+			if store == "redis" {
+				flags = append(flags, w.RedisModeFlags("standalone")...)
+			}
+			p, err := w.NewProxy(flags...)
+			if err != nil {
+				c.run.Count("negative_lifetime_configurations_refused_by_validation", 1)
+				continue
+			}
+			for _, shift := range []time.Duration{0, -30 * time.Minute, 2 * time.Minute} {
+				b := vfNewBrowser("")
+				if shift != 0 {
+					clock.Set(time.Now().Add(shift))
+				}
+				l, err := b.StartLogin(p, vfIdentity{Sub: "u-c09-neg", Email: "neg@example.com"}, "/")
+				var cb *vfResp
+				if err == nil {
+					cb = b.Get(p, l.CallbackTarget(p))
+				}
+				clock.Reset()
+				if err != nil || cb == nil {
+					c.run.Inconclusive("rig: negative-lifetime login could not be started")
+					continue
+				}
+				// the client keeps every session cookie the callback carried, ignoring Max-Age / Expires
+				var pairs []string
+				for _, line := range cb.SetCookies() {
+					ck, perr := http.ParseSetCookie(line)
+					if perr == nil && ck.Value != "" && c.isSessionName(ck.Name) {
+						pairs = append(pairs, ck.Name+"="+ck.Value)
+					}
+				}
+				c.run.Count("negative_lifetime_logins", 1)
+				if len(pairs) == 0 {
+					c.run.Eval("negative-lifetime|" + store + "|no credential handed out")
+					continue
+				}
+				for _, wait := range []time.Duration{0, 1100 * time.Millisecond} {
+					if wait > 0 && shift != 0 {
+						continue
+					}
+					time.Sleep(wait)
+					uid := "c09neg-" + vfRandHex(4)
+					r := p.Do(vfGET("/x", "X-Vf-Id", uid).H("Cookie", strings.Join(pairs, "; ")))
+					ui := p.Do(vfGET("/oauth2/userinfo").H("Cookie", strings.Join(pairs, "; ")))
+					c.run.Eval(fmt.Sprintf("negative-lifetime|%s|%s|issued%+v|wait=%v", store, e, shift, wait))
+					if len(w.Up.FindHit(uid)) > 0 || r.Code == 200 || ui.Code == 200 {
+						c.run.Violation("c09:negative-lifetime-credential-honoured", fmt.Sprintf("%s store, --cookie-expire=%s: a credential issued %v relative to now and presented %v later is honoured (GET /x %d, userinfo %d) although the configured lifetime elapsed at issue", store, e, shift, wait, r.Code, ui.Code),
+							map[string]interface{}{"flags": p.Flags, "cookies": pairs, "status": r.Code, "userinfo_status": ui.Code})
+					}
 				}
 			}
 		}
